@@ -1,5 +1,6 @@
 // C18 round-trip cases: kernel functions and KernelExpansion.
 #include "c18_rt.h"
+#include "c18_behave.h"
 
 #include <cstdlib>
 #include <new>
@@ -69,10 +70,20 @@ void obsKernel(Obs& o, K const& k, Probes const& p, std::string const& pre = "")
 	}
 }
 
-template<class KT> void runKernel(Ctx& c, KT const& a, KT& b, Probes const& p) {
+// all advertised behaviours (c18_behave.h) of the original against the object restored into the fresh minimal /
+// default-constructed `d` and against the already restored, differently parameterised `b`
+void kernelTargets(Ctx& c, K const& a, K const& b, K const& d, Probes const& p) {
+	Obs ba = kernelBehaviour<RealVector>(a, p.X, p.Y);
+	pairBehaviour(c, "default", ba, kernelBehaviour<RealVector>(d, p.X, p.Y));
+	pairBehaviour(c, "other", ba, kernelBehaviour<RealVector>(b, p.X, p.Y));
+}
+
+template<class KT> void runKernel(Ctx& c, KT const& a, KT& b, KT& d, Probes const& p) {
 	obsKernel(c.A, a, p);
 	c.transfer(a, b);
 	obsKernel(c.B, b, p);
+	c.transfer(a, d);
+	kernelTargets(c, a, b, d, p);
 }
 
 // ---------- simple kernels ----------
@@ -80,9 +91,9 @@ void gaussCase(Ctx& c, std::string const& variant) {
 	Prng r(c.seed);
 	bool unc = (variant == "unconstrained");
 	GaussianRbfKernel<RealVector> a(r.in(0.1, 2.0), unc);
-	GaussianRbfKernel<RealVector> b(r.in(2.5, 4.0), !unc);
+	GaussianRbfKernel<RealVector> b(r.in(2.5, 4.0), !unc), d;
 	Probes p(r, r.range(1, 4));
-	runKernel(c, a, b, p);
+	runKernel(c, a, b, d, p);
 }
 
 // variant: deg_param | deg_fixed | deg_param_unc | deg_fixed_unc | offset0 : the fresh kernel differs in degree,
@@ -98,25 +109,25 @@ void polyCase(Ctx& c, std::string const& variant) {
 	unsigned da = (unsigned)r.range(1, 4);
 	double offA = (v == "offset0") ? 0.0 : r.in(0.1, 2.0);
 	PolynomialKernel<RealVector> a(da, offA, degParam, unc);
-	PolynomialKernel<RealVector> b((unsigned)r.rangeNot(1, 5, da), r.in(2.5, 4.0), flip ? !degParam : degParam, !unc);
+	PolynomialKernel<RealVector> b((unsigned)r.rangeNot(1, 5, da), r.in(2.5, 4.0), flip ? !degParam : degParam, !unc), d;
 	Probes p(r, r.range(1, 4));
-	runKernel(c, a, b, p);
+	runKernel(c, a, b, d, p);
 }
 
 void linearCase(Ctx& c, std::string const&) {
 	Prng r(c.seed);
-	LinearKernel<RealVector> a, b;
+	LinearKernel<RealVector> a, b, d;
 	Probes p(r, r.range(1, 4));
-	runKernel(c, a, b, p);
+	runKernel(c, a, b, d, p);
 }
 
 void monomialCase(Ctx& c, std::string const&) {
 	Prng r(c.seed);
 	unsigned e = (unsigned)r.range(1, 4);
 	MonomialKernel<RealVector> a(e);
-	MonomialKernel<RealVector> b((unsigned)r.rangeNot(1, 5, e));
+	MonomialKernel<RealVector> b((unsigned)r.rangeNot(1, 5, e)), d;
 	Probes p(r, r.range(1, 4));
-	runKernel(c, a, b, p);
+	runKernel(c, a, b, d, p);
 }
 
 void ardCase(Ctx& c, std::string const& variant) {
@@ -129,8 +140,9 @@ void ardCase(Ctx& c, std::string const& variant) {
 	// fresh: either same dimension with other gammas, or another dimension
 	std::size_t d2 = (variant == "samedim") ? d : r.rangeNot(1, 5, d);
 	ARDKernelUnconstrained<RealVector> b((unsigned)d2, r.in(2.5, 4.0));
+	ARDKernelUnconstrained<RealVector> dflt(1);       // no default constructor: the minimal object
 	Probes p(r, d);
-	runKernel(c, a, b, p);
+	runKernel(c, a, b, dflt, p);
 }
 
 // ---------- composite kernels (sub-kernel objects are supplied by the user, their state is serialised) ----------
@@ -143,6 +155,10 @@ void scaledCase(Ctx& c, std::string const&) {
 	obsKernel(c.A, a, p); obsKernel(c.A, ga, p, "base.");
 	c.transfer(a, b);
 	obsKernel(c.B, b, p); obsKernel(c.B, gb, p, "base.");
+	GaussianRbfKernel<RealVector> gd;
+	ScaledKernel<RealVector> d(&gd);
+	c.transfer(a, d);
+	kernelTargets(c, a, b, d, p);
 }
 
 // variant: default | adaptive | weights | noadaptweights
@@ -172,6 +188,11 @@ void weightedSumCase(Ctx& c, std::string const& variant) {
 	obsKernel(c.A, a, p); obsKernel(c.A, ga, p, "sub0."); obsKernel(c.A, pa, p, "sub1.");
 	c.transfer(a, b);
 	obsKernel(c.B, b, p); obsKernel(c.B, gb, p, "sub0."); obsKernel(c.B, pb, p, "sub1.");
+	GaussianRbfKernel<RealVector> gd; PolynomialKernel<RealVector> pd;
+	std::vector<K*> kd; kd.push_back(&gd); kd.push_back(&pd);
+	WeightedSumKernel<RealVector> d(kd);
+	c.transfer(a, d);
+	kernelTargets(c, a, b, d, p);
 }
 
 // ProductKernel's constructors never initialise m_numberOfParameters (they only `+=` onto it); to get a
@@ -195,6 +216,10 @@ void productCase(Ctx& c, std::string const&) {
 	obsKernel(c.A, *a.k, p); obsKernel(c.A, ga, p, "sub0."); obsKernel(c.A, pa, p, "sub1.");
 	c.transfer(*a.k, *b.k);
 	obsKernel(c.B, *b.k, p); obsKernel(c.B, gb, p, "sub0."); obsKernel(c.B, pb, p, "sub1.");
+	GaussianRbfKernel<RealVector> gd; PolynomialKernel<RealVector> pd;
+	ProductHolder d(&gd, &pd);
+	c.transfer(*a.k, *d.k);
+	kernelTargets(c, *a.k, *b.k, *d.k, p);
 }
 
 // NormalizedKernel has no read/write of its own: AbstractMetric's default (parameter vector only) applies.
@@ -215,6 +240,11 @@ void normalizedCase(Ctx& c, std::string const& variant) {
 	obsKernel(c.A, a, p); obsKernel(c.A, *ka, p, "base.");
 	c.transfer(a, b);
 	obsKernel(c.B, b, p); obsKernel(c.B, *kb, p, "base.");
+	// NormalizedKernel streams the parameter vector only (see above): the fresh base kernel keeps the non-parameter structure
+	GaussianRbfKernel<RealVector> gd; PolynomialKernel<RealVector> pd(deg, 0.0, false);
+	NormalizedKernel<RealVector> d(variant == "gauss" ? static_cast<K*>(&gd) : static_cast<K*>(&pd));
+	c.transfer(a, d);
+	kernelTargets(c, a, b, d, p);
 }
 
 void modelKernelCase(Ctx& c, std::string const&) {
@@ -246,6 +276,10 @@ void modelKernelCase(Ctx& c, std::string const&) {
 		RealMatrix res; k.eval(p.X, p.Y, res);
 		o.mat("batchEval", res);
 	}
+	GaussianRbfKernel<RealVector> gd; LinearModel<RealVector> md;
+	ModelKernel<RealVector> d(&gd, &md);
+	c.transfer(a, d);
+	kernelTargets(c, a, b, d, p);
 }
 
 // ---------- KernelExpansion ----------
@@ -254,6 +288,14 @@ Data<RealVector> makeBasis(Prng& r, std::size_t n, std::size_t d) {
 	std::vector<RealVector> pts(n, RealVector(d));
 	for (std::size_t i = 0; i != n; ++i) for (std::size_t j = 0; j != d; ++j) pts[i](j) = r.sym();
 	return createDataFromRange(pts, 2); // batches of at most 2 elements
+}
+
+bool expansionOk(KernelExpansion<RealVector> const& m, RealMatrix const& probes) {
+	Data<RealVector> const& bs = m.basis();
+	bool dimOk = true;
+	for (std::size_t i = 0; i != bs.numberOfBatches(); ++i)
+		if (bs.batch(i).size1() != 0 && bs.batch(i).size2() != probes.size2()) dimOk = false;
+	return dimOk && m.alpha().size1() == bs.numberOfElements() && (!m.hasOffset() || m.offset().size() == m.alpha().size2());
 }
 
 void obsExpansion(Obs& o, KernelExpansion<RealVector> const& m, RealMatrix const& probes) {
@@ -321,6 +363,14 @@ void expansionCase(Ctx& c, std::string const& variant) {
 	obsExpansion(c.A, a, probes);
 	c.transfer(a, b);
 	obsExpansion(c.B, b, probes);
+	// the kernel object is user-supplied structure: default-constructed kernel of the same type, otherwise nothing
+	GaussianRbfKernel<RealVector> gd; PolynomialKernel<RealVector> pd;
+	KernelExpansion<RealVector> dflt(gauss ? static_cast<K*>(&gd) : static_cast<K*>(&pd));
+	c.transfer(a, dflt);
+	std::vector<Target<KernelExpansion<RealVector> > > ts;
+	ts.push_back(Target<KernelExpansion<RealVector> >("default", dflt, expansionOk(dflt, probes)));
+	ts.push_back(Target<KernelExpansion<RealVector> >("other", b, expansionOk(b, probes)));
+	compareModelBehaviour(c, a, expansionOk(a, probes), ts, probes);
 }
 
 } // namespace
